@@ -349,7 +349,11 @@ pub fn run(rep: &mut Report) {
             cases.push(Case { spec: sh.clone(), coords, hboxes: vec![], phase: None, scalar: ScalarSpec::One, gap: a % 3 });
         }
         for hb in [vec![0usize], vec![1], vec![0, 1]] {
-            cases.push(Case { spec: sh.clone(), coords: vec![], hboxes: hb, phase: None, scalar: ScalarSpec::One, gap: 0 });
+            cases.push(Case { spec: sh.clone(), coords: vec![], hboxes: hb.clone(), phase: None, scalar: ScalarSpec::One, gap: 0 });
+            // H-boxes with a label other than the default 1 (0 is the value elided for spiders)
+            for (n, d) in [(0i64, 1i64), (1, 4), (-1, 2), (1, 3), (3, 256)] {
+                cases.push(Case { spec: sh.clone(), coords: vec![], hboxes: hb.clone(), phase: Some((hb[0], n, d)), scalar: ScalarSpec::One, gap: (d % 3) as usize });
+            }
         }
         for sc in scalar_grid(quick) {
             cases.push(Case { spec: sh.clone(), coords: vec![], hboxes: vec![], phase: None, scalar: sc, gap: 1 });
